@@ -1552,4 +1552,373 @@ theorem scanTags_renderPieces : ∀ (c : List Piece), cleanPieces c = true →
       congr 1
       exact ih hc
 
+
+/-! ### piece-level collate, exact form and length of the in-place rendering (round 7) -/
+
+abbrev PMsg := Role × List Piece
+
+def rp (m : PMsg) : RMsg := (m.1, renderPieces m.2)
+
+/-- `collateMsgs` at the level of pieces: the blank line that joins two messages is a literal piece -/
+def collateP : List PMsg → List PMsg
+  | [] => []
+  | (r, c) :: rest =>
+    match collateP rest with
+    | (r', c') :: tl => if r = r' then (r, c ++ [Piece.lit sep2] ++ c') :: tl else (r, c) :: (r', c') :: tl
+    | [] => [(r, c)]
+
+theorem renderPieces_append (a b : List Piece) : renderPieces (a ++ b) = renderPieces a ++ renderPieces b := by
+  simp [renderPieces]
+
+theorem collateMsgs_map_rp : ∀ l : List PMsg, collateMsgs (l.map rp) = (collateP l).map rp := by
+  intro l
+  induction l with
+  | nil => rfl
+  | cons a l ih =>
+    obtain ⟨r, c⟩ := a
+    show collateMsgs ((r, renderPieces c) :: l.map rp) = (collateP ((r, c) :: l)).map rp
+    simp only [collateMsgs, collateP, ih]
+    cases hc : collateP l with
+    | nil => simp [rp]
+    | cons b tl =>
+      obtain ⟨r', c'⟩ := b
+      simp only [List.map_cons, rp]
+      by_cases hr : r = r'
+      · simp [hr, rp, renderPieces_append, renderPieces, renderPiece]
+      · simp [hr, rp]
+
+theorem tagsOf_append (a b : List Piece) : tagsOf (a ++ b) = tagsOf a ++ tagsOf b := by
+  simp [tagsOf, List.filterMap_append]
+
+theorem cleanPieces_append (a b : List Piece) : cleanPieces (a ++ b) = (cleanPieces a && cleanPieces b) := by
+  simp [cleanPieces, List.all_append]
+
+theorem collateP_tags : ∀ l : List PMsg,
+    (collateP l).flatMap (fun m => tagsOf m.2) = l.flatMap (fun m => tagsOf m.2) := by
+  intro l
+  induction l with
+  | nil => rfl
+  | cons a l ih =>
+    obtain ⟨r, c⟩ := a
+    simp only [collateP, List.flatMap_cons]
+    rw [← ih]
+    cases hc : collateP l with
+    | nil => simp
+    | cons b tl =>
+      obtain ⟨r', c'⟩ := b
+      by_cases hr : r = r'
+      · simp [hr, tagsOf_append, tagsOf]
+      · simp [hr]
+
+theorem collateP_clean : ∀ l : List PMsg, (∀ m ∈ l, cleanPieces m.2 = true) →
+    ∀ m ∈ collateP l, cleanPieces m.2 = true := by
+  intro l
+  induction l with
+  | nil => intro _ m hm; simp [collateP] at hm
+  | cons a l ih =>
+    intro h m hm
+    obtain ⟨r, c⟩ := a
+    have hc : cleanPieces c = true := h (r, c) (by simp)
+    have ih' := ih (fun x hx => h x (by simp [hx]))
+    simp only [collateP] at hm
+    cases hcl : collateP l with
+    | nil => rw [hcl] at hm; simp at hm; subst hm; exact hc
+    | cons b tl =>
+      obtain ⟨r', c'⟩ := b
+      rw [hcl] at hm ih'
+      have hc' : cleanPieces c' = true := ih' (r', c') (by simp)
+      by_cases hr : r = r'
+      · simp only [hr, if_true] at hm
+        rcases List.mem_cons.mp hm with h1 | h1
+        · subst h1
+          simp only [cleanPieces_append, hc, hc', Bool.and_true, Bool.true_and]
+          decide
+        · exact ih' m (by simp [h1])
+      · simp only [hr, if_false] at hm
+        rcases List.mem_cons.mp hm with h1 | h1
+        · subst h1; exact hc
+        · exact ih' m h1
+
+/-- the pieces of the in-place template's output for one (merged) message -/
+def inPlaceP (m : PMsg) : List Piece :=
+  [Piece.lit ([91] ++ roleName m.1 ++ [124])] ++ m.2 ++ [Piece.lit [93]]
+
+theorem inPlaceP_render (m : PMsg) :
+    renderPieces (inPlaceP m) = [91] ++ (roleName m.1 ++ ([124] ++ ((rp m).2 ++ ([93] ++ [])))) := by
+  simp [inPlaceP, renderPieces_append, renderPieces, renderPiece, rp]
+
+theorem inPlaceP_clean (m : PMsg) (h : cleanPieces m.2 = true) : cleanPieces (inPlaceP m) = true := by
+  obtain ⟨r, c⟩ := m
+  simp only [inPlaceP, cleanPieces_append, h, Bool.and_true, Bool.true_and]
+  cases r <;> decide
+
+theorem inPlaceP_tags (m : PMsg) : tagsOf (inPlaceP m) = tagsOf m.2 := by
+  simp [inPlaceP, tagsOf_append, tagsOf]
+
+theorem flatMap_clean {α : Type} (f : α → List Piece) : ∀ l : List α, (∀ x ∈ l, cleanPieces (f x) = true) →
+    cleanPieces (l.flatMap f) = true := by
+  intro l
+  induction l with
+  | nil => intro _; rfl
+  | cons a l ih =>
+    intro h
+    simp only [List.flatMap_cons, cleanPieces_append, h a (by simp), ih (fun x hx => h x (by simp [hx])), Bool.and_true]
+
+theorem flatMap_tags {α : Type} (f : α → List Piece) (l : List α) :
+    tagsOf (l.flatMap f) = l.flatMap (fun x => tagsOf (f x)) := by
+  induction l with
+  | nil => rfl
+  | cons a l ih => simp only [List.flatMap_cons, tagsOf_append, ih]
+
+/-- folding message bodies = concatenation -/
+theorem fold_bodies_exact (body : Option RMsg → XOut) (g : RMsg → Bytes) :
+    ∀ (l : List RMsg) (acc : Bytes), (∀ m ∈ l, body (some m) = XOut.ok (g m)) →
+    l.foldl (fun (a : XOut) m => a.append (body (some m))) (XOut.ok acc) = XOut.ok (acc ++ l.flatMap g) := by
+  intro l
+  induction l with
+  | nil => intro acc _; simp
+  | cons a l ih =>
+    intro acc h
+    have e : (XOut.ok acc).append (body (some a)) = XOut.ok (acc ++ g a) := by
+      rw [h a (by simp)]; rfl
+    rw [List.foldl_cons, e, ih (acc ++ g a) (fun m hm => h m (by simp [hm]))]
+    simp
+
+theorem count_tagsOf (k : Nat) : ∀ c : List Piece, (tagsOf c).count k = countTag k c := by
+  intro c
+  induction c with
+  | nil => rfl
+  | cons p c ih =>
+    cases p with
+    | tag j =>
+      simp only [tagsOf, List.filterMap_cons, countTag, List.countP_cons] at ih ⊢
+      by_cases hj : j = k
+      · subst hj; simp [ih]
+      · have : ¬ (k = j) := fun h => hj h.symm
+        simp [hj, this, ih, List.count_cons]
+    | lit b => simpa [tagsOf, countTag, List.countP_cons] using ih
+    | slot => simpa [tagsOf, countTag, List.countP_cons] using ih
+    | mm => simpa [tagsOf, countTag, List.countP_cons] using ih
+
+theorem renderPieces_flatMap {α : Type} (f : α → List Piece) (l : List α) :
+    renderPieces (l.flatMap f) = l.flatMap (fun x => renderPieces (f x)) := by
+  induction l with
+  | nil => rfl
+  | cons a l ih => simp only [List.flatMap_cons, renderPieces_append, ih]
+
+
+/-- bytes the in-place template spends on one message, given the role of the message before it (after
+    collate a message of the same role is appended to the previous one with a blank line) -/
+def ipCost (prev : Option Role) (m : RMsg) : Nat :=
+  if prev = some m.1 then 2 + m.2.length else (roleName m.1).length + 3 + m.2.length
+
+def ipLen : Option Role → List RMsg → Nat
+  | _, [] => 0
+  | prev, m :: l => ipCost prev m + ipLen (some m.1) l
+
+theorem roleName_pos (r : Role) : 4 ≤ (roleName r).length := by cases r <;> decide
+
+theorem ipCost_tri (prev : Option Role) (x y : RMsg) :
+    ipCost prev y ≤ ipCost prev x + ipCost (some x.1) y := by
+  have hy := roleName_pos y.1
+  by_cases hxy : x.1 = y.1
+  · unfold ipCost
+    rw [hxy]
+    by_cases h3 : prev = some y.1 <;> simp only [h3, if_true, if_false] <;> omega
+  · have h2 : ¬ (some x.1 = some y.1) := fun h => hxy (Option.some.inj h)
+    unfold ipCost
+    simp only [h2, if_false]
+    by_cases h3 : prev = some y.1 <;> simp only [h3, if_true, if_false] <;> omega
+
+/-- removing the first message does not make the rendering longer -/
+theorem ipLen_drop_head (prev : Option Role) (x : RMsg) (b : List RMsg) :
+    ipLen prev b ≤ ipLen prev (x :: b) := by
+  cases b with
+  | nil => simp [ipLen]
+  | cons y b' =>
+    simp only [ipLen]
+    have := ipCost_tri prev x y
+    omega
+
+/-- removing a message anywhere does not make the rendering longer -/
+theorem ipLen_remove (x : RMsg) : ∀ (a b : List RMsg) (prev : Option Role),
+    ipLen prev (a ++ b) ≤ ipLen prev (a ++ x :: b) := by
+  intro a
+  induction a with
+  | nil => intro b prev; exact ipLen_drop_head prev x b
+  | cons y a ih =>
+    intro b prev
+    simp only [List.cons_append, ipLen]
+    have := ih b (some y.1)
+    omega
+
+def headRole (l : List RMsg) : Option Role := l.head?.map (·.1)
+
+theorem collate_head (l : List RMsg) : headRole (collateMsgs l) = headRole l := by
+  cases l with
+  | nil => rfl
+  | cons a rest =>
+    obtain ⟨r, c⟩ := a
+    simp only [collateMsgs]
+    split
+    · split <;> rfl
+    · rfl
+
+/-- `[role|content]` -/
+def ipBody (x : RMsg) : Bytes := [91] ++ (roleName x.1 ++ ([124] ++ (x.2 ++ ([93] ++ []))))
+
+theorem ipBody_length (x : RMsg) : (ipBody x).length = (roleName x.1).length + 3 + x.2.length := by
+  simp [ipBody]; omega
+
+def gl (l : List RMsg) : Nat := ((collateMsgs l).flatMap ipBody).length
+
+theorem gl_cons (r : Role) (c : Bytes) (rest : List RMsg) :
+    gl ((r, c) :: rest) =
+      if headRole rest = some r then gl rest + c.length + 2
+      else (roleName r).length + 3 + c.length + gl rest := by
+  have hh := collate_head rest
+  unfold gl
+  simp only [collateMsgs]
+  cases hc : collateMsgs rest with
+  | nil =>
+    rw [hc] at hh
+    have : ¬ (headRole rest = some r) := by rw [← hh]; simp [headRole]
+    simp [this, ipBody_length]
+    try omega
+  | cons b tl =>
+    obtain ⟨r', c'⟩ := b
+    rw [hc] at hh
+    have hr' : headRole rest = some r' := by rw [← hh]; rfl
+    by_cases hr : r = r'
+    · subst hr
+      simp [hr', ipBody_length, sep2]
+      try omega
+    · have : ¬ (some r' = some r) := fun h => hr (Option.some.inj h).symm
+      simp [hr', hr, this, ipBody_length]
+      try omega
+
+/-- the length of the in-place rendering, computed left to right -/
+theorem ipLen_gl : ∀ (l : List RMsg) (prev : Option Role),
+    ipLen prev l + (match headRole l with
+      | some r => if prev = some r then (roleName r).length + 1 else 0
+      | none => 0) = gl l := by
+  intro l
+  induction l with
+  | nil => intro prev; simp [ipLen, gl, headRole, collateMsgs]
+  | cons a rest ih =>
+    intro prev
+    obtain ⟨r, c⟩ := a
+    have ihr := ih (some r)
+    rw [gl_cons]
+    have hhd : headRole ((r, c) :: rest) = some r := rfl
+    rw [hhd]
+    simp only [ipLen, ipCost]
+    have hrn := roleName_pos r
+    cases hh : headRole rest with
+    | none =>
+      rw [hh] at ihr
+      simp only [reduceCtorEq, if_false] at ihr ⊢
+      by_cases hp : prev = some r <;> simp only [hp, if_true, if_false] <;> omega
+    | some r' =>
+      rw [hh] at ihr
+      simp only at ihr
+      by_cases hr : r' = r
+      · subst hr
+        simp only [if_true] at ihr ⊢
+        by_cases hp : prev = some r' <;> simp only [hp, if_true, if_false] <;> omega
+      · have h1 : ¬ (some r = some r') := fun h => hr (Option.some.inj h).symm
+        have h2 : ¬ (some r' = some r) := fun h => hr (Option.some.inj h)
+        simp only [h1, h2, if_false] at ihr ⊢
+        by_cases hp : prev = some r <;> simp only [hp, if_true, if_false] <;> omega
+
+theorem gl_eq_ipLen (l : List RMsg) : gl l = ipLen none l := by
+  have := ipLen_gl l none
+  cases h : headRole l <;> simp [h] at this <;> omega
+
+/-- **removing a message never makes the in-place prompt longer** -/
+theorem gl_remove (x : RMsg) (a b : List RMsg) : gl (a ++ b) ≤ gl (a ++ x :: b) := by
+  rw [gl_eq_ipLen, gl_eq_ipLen]; exact ipLen_remove x a b none
+
+
+theorem antitone_of_step (f : Nat → Nat) (L : Nat) (hstep : ∀ i, i < L → f (i+1) ≤ f i) :
+    ∀ d i, i + d ≤ L → f (i + d) ≤ f i := by
+  intro d
+  induction d with
+  | zero => intro i _; exact Nat.le_refl _
+  | succ d ih =>
+    intro i h
+    have h1 := ih i (by omega)
+    have h2 := hstep (i + d) (by omega)
+    have : i + (d + 1) = i + d + 1 := by omega
+    rw [this]
+    omega
+
+/-- the candidate list of iteration `i` -/
+def cand (msgs : List Msg) (i : Nat) : List Msg := systemsBefore msgs i ++ msgs.drop i
+
+theorem systemsBefore_succ (msgs : List Msg) (i : Nat) (h : i < msgs.length) :
+    systemsBefore msgs (i+1) = systemsBefore msgs i ++ (if msgs[i].role = Role.system then [msgs[i]] else []) := by
+  simp only [systemsBefore, List.take_add_one, List.filter_append]
+  rw [List.getElem?_eq_getElem h]
+  by_cases hr : msgs[i].role = Role.system <;> simp [hr]
+
+/-- the next shorter candidate is the current one, possibly with one (non-system) message removed -/
+theorem cand_step (msgs : List Msg) (i : Nat) (h : i < msgs.length) :
+    cand msgs (i+1) = cand msgs i ∨
+    ∃ a b x, cand msgs i = a ++ x :: b ∧ cand msgs (i+1) = a ++ b := by
+  have hd : msgs.drop i = msgs[i] :: msgs.drop (i+1) := (List.drop_eq_getElem_cons h)
+  unfold cand
+  rw [systemsBefore_succ msgs i h, hd]
+  by_cases hr : msgs[i].role = Role.system
+  · left; simp [hr]
+  · right
+    exact ⟨systemsBefore msgs i, msgs.drop (i+1), msgs[i], rfl, by simp [hr]⟩
+
+theorem imgCount_drop_step (msgs : List Msg) (i : Nat) :
+    imgCount (msgs.drop (i+1)) ≤ imgCount (msgs.drop i) := by
+  by_cases h : i < msgs.length
+  · rw [List.drop_eq_getElem_cons h]
+    simp only [imgCount, List.map_cons, List.sum_cons]
+    omega
+  · have h1 : msgs.drop i = [] := List.drop_eq_nil_of_le (by omega)
+    have h2 : msgs.drop (i+1) = [] := List.drop_eq_nil_of_le (by omega)
+    rw [h1, h2]; exact Nat.le_refl _
+
+
+/-! ### the OpenAI-compatible entry -/
+
+theorem fromOpenAIMsg_images (m : OMsg) : (fromOpenAIMsg m).flatMap (·.images) = omsgImages m := by
+  obtain ⟨r, c⟩ := m
+  cases c with
+  | str c => rfl
+  | parts ps =>
+    simp only [fromOpenAIMsg, omsgImages]
+    induction ps with
+    | nil => rfl
+    | cons p ps ih =>
+      cases p <;> simp_all [partMsg, partImages]
+
+/-- the images of the converted conversation are the image parts of the request, in order -/
+theorem fromOpenAI_images (l : List OMsg) : (fromOpenAI l).flatMap (·.images) = l.flatMap omsgImages := by
+  induction l with
+  | nil => rfl
+  | cons m l ih =>
+    simp only [fromOpenAI, List.flatMap_cons, List.flatMap_append] at ih ⊢
+    rw [ih, fromOpenAIMsg_images]
+
+/-- every converted message carries at most one image -/
+theorem fromOpenAI_one_image (l : List OMsg) : ∀ m ∈ fromOpenAI l, m.images.length ≤ 1 := by
+  intro m hm
+  simp only [fromOpenAI, List.mem_flatMap] at hm
+  obtain ⟨o, _, hmo⟩ := hm
+  obtain ⟨r, c⟩ := o
+  cases c with
+  | str c => simp [fromOpenAIMsg] at hmo; subst hmo; simp
+  | parts ps =>
+    simp only [fromOpenAIMsg, List.mem_map] at hmo
+    obtain ⟨p, _, hp⟩ := hmo
+    subst hp
+    cases p <;> simp [partMsg]
+
+
 end OllamaVerif.Prompt
